@@ -48,22 +48,26 @@ Proof.
   unfold num_eqb. rewrite Qa, Qb. apply Qeq_bool_iff. apply eqR_Qeq. congruence.
 Qed.
 
+Lemma ebind_ok r f n : ebind r f = EOk n -> exists m, r = EOk m /\ m <> NNonFinite /\ f m = EOk n.
+Proof. destruct r as [m| | |]; try discriminate. destruct m; cbn [ebind]; try discriminate; intros H; eexists; (split; [reflexivity|split; [discriminate|exact H]]). Qed.
+Lemma ebind_fin m f v : numR m = Some v -> ebind (EOk m) f = f m.
+Proof. destruct m; [reflexivity|reflexivity|]. rewrite numR_nan. discriminate. Qed.
+
 (* soundness: a value returned by evaluate is the mathematical value, whenever that exists *)
 Theorem eval_sound rho : forall e n v, eval rho e = EOk n -> den (envR rho) e = Some v -> numR n = Some v.
 Proof.
-  induction e as [c|x|u e IH|k l IHl r IHr]; intros n v He Hd; simpl in He.
+  induction e as [c|x|u e IH|k l IHl r IHr]; intros n v He Hd; cbn [eval] in He.
   - inversion He; subst. exact Hd.
   - cbn [den] in Hd. unfold envR in Hd. destruct (rho x) as [m|]; [|discriminate]. inversion He; subst. exact Hd.
   - cbn [den] in Hd.
-    destruct u; simpl in He; (destruct (eval rho e) as [m| |] eqn:E; simpl in He; try discriminate He);
-      (destruct (den (envR rho) e) as [w|] eqn:D; cbn [bind1 option_map] in Hd; [|discriminate Hd]); specialize (IH m w eq_refl eq_refl).
+    destruct u; (apply ebind_ok in He; destruct He as (m & E & _ & He));
+      (destruct (den (envR rho) e) as [w|] eqn:D; cbn [bind1 option_map] in Hd; [|discriminate Hd]); specialize (IH m w E eq_refl).
     + inversion He; inversion Hd; subst. now apply numR_nneg.
     + destruct (nfact m) as [f|] eqn:F; [|discriminate]. inversion He; subst. eapply nfact_R; eauto.
     + inversion He; inversion Hd; subst. now apply nsgn_R.
-  - destruct (eval rho l) as [a| |] eqn:El; simpl in He; try discriminate.
-    destruct (eval rho r) as [b| |] eqn:Er; simpl in He; try discriminate.
+  - apply ebind_ok in He. destruct He as (a & El & _ & He). apply ebind_ok in He. destruct He as (b & Er & _ & He).
     cbn [den] in Hd. apply bind2_some in Hd. destruct Hd as (x & y & Dl & Dr & Hop).
-    specialize (IHl a x eq_refl Dl). specialize (IHr b y eq_refl Dr).
+    specialize (IHl a x El Dl). specialize (IHr b y Er Dr).
     destruct k; simpl in He, Hop.
     + destruct (num_eqb a b) eqn:Q; [|discriminate]. inversion He; subst. destruct (Req_EM_T x y); [|discriminate]. inversion Hop; subst. exact IHl.
     + inversion He; inversion Hop; subst. now apply numR_nadd.
@@ -77,11 +81,11 @@ Qed.
    power is irrational and outside the exact model) *)
 Theorem eval_complete rho : forall e v, den (envR rho) e = Some v -> (exists n, eval rho e = EOk n /\ numR n = Some v) \/ eval rho e = EInexact.
 Proof.
-  induction e as [c|x|u e IH|k l IHl r IHr]; intros v Hd; cbn [den] in Hd; simpl.
+  induction e as [c|x|u e IH|k l IHl r IHr]; intros v Hd; cbn [den] in Hd; cbn [eval].
   - left. eauto.
   - unfold envR in Hd. destruct (rho x) as [m|]; [|discriminate]. left. eauto.
   - destruct u; (destruct (den (envR rho) e) as [w|] eqn:D; cbn [bind1 option_map] in Hd; [|discriminate Hd]);
-      (destruct (IH w eq_refl) as [(m & Em & Hm)|Ei]; [|right; rewrite Ei; reflexivity]); rewrite Em; simpl.
+      (destruct (IH w eq_refl) as [(m & Em & Hm)|Ei]; [|right; rewrite Ei; reflexivity]); rewrite Em, (ebind_fin m _ w Hm).
     + inversion Hd; subst. left. eexists. split; [reflexivity|]. now apply numR_nneg.
     + left. unfold rfact in Hd. destruct (is_int w) as [[z Hz]|] eqn:I; [|discriminate]. destruct (Rle_dec 0 w); [|discriminate]. subst w.
       assert (0 <= z)%Z as Hz0 by (apply le_IZR; assumption).
@@ -97,8 +101,8 @@ Proof.
       rewrite F. eexists. split; [reflexivity|]. eapply nfact_R; eauto. unfold rfact. rewrite I. destruct (Rle_dec 0 (IZR z)); [exact Hd|contradiction].
     + inversion Hd; subst. left. eexists. split; [reflexivity|]. now apply nsgn_R.
   - apply bind2_some in Hd. destruct Hd as (x & y & Dl & Dr & Hop).
-    destruct (IHl x Dl) as [(a & Ea & Ha)|Ei]; [|right; rewrite Ei; reflexivity]. rewrite Ea. simpl.
-    destruct (IHr y Dr) as [(b & Eb & Hb)|Ei]; [|right; rewrite Ei; reflexivity]. rewrite Eb. simpl.
+    destruct (IHl x Dl) as [(a & Ea & Ha)|Ei]; [|right; rewrite Ei; reflexivity]. rewrite Ea, (ebind_fin a _ x Ha).
+    destruct (IHr y Dr) as [(b & Eb & Hb)|Ei]; [|right; rewrite Ei; destruct (eval rho l); reflexivity]. rewrite Eb, (ebind_fin b _ y Hb).
     destruct k; simpl in Hop |- *.
     + destruct (Req_EM_T x y); [|discriminate]. inversion Hop; subst. rewrite (num_eqb_of_R a b v Ha Hb). left. eauto.
     + inversion Hop; subst. left. eexists. split; [reflexivity|]. now apply numR_nadd.
@@ -111,12 +115,11 @@ Qed.
 (* a value is returned only if every variable of the expression has a value *)
 Theorem eval_needs_all_variables rho : forall e n, eval rho e = EOk n -> forall x, In x (vars e) -> rho x <> None.
 Proof.
-  induction e as [c|y|u e IH|k l IHl r IHr]; intros n He x Hx; simpl in *.
+  induction e as [c|y|u e IH|k l IHl r IHr]; intros n He x Hx; cbn [eval vars] in *.
   - contradiction.
   - destruct Hx as [->|[]]. destruct (rho x); [discriminate|discriminate].
-  - destruct (eval rho e) as [m| |] eqn:E; simpl in He; try (destruct u; discriminate He). eapply IH; eauto.
-  - destruct (eval rho l) as [a| |] eqn:El; simpl in He; try discriminate.
-    destruct (eval rho r) as [b| |] eqn:Er; simpl in He; try discriminate.
+  - assert (exists m, eval rho e = EOk m) as (m & E) by (destruct u; apply ebind_ok in He; destruct He as (m & E & _); eauto). eapply IH; eauto.
+  - apply ebind_ok in He. destruct He as (a & El & _ & He). apply ebind_ok in He. destruct He as (b & Er & _ & He).
     apply in_app_or in Hx. destruct Hx; [eapply IHl|eapply IHr]; eauto.
 Qed.
 
